@@ -29,6 +29,10 @@ def fix_case(case):
         case['vars'] = [(v[0], v[1], list(v[2])) for v in case['vars']]
     if 'pform' in case:
         case['pform'] = {int(k): {'pos': list(v.get('pos', ())), 'kw': list(v.get('kw', ()))} for k, v in case['pform'].items()}
+    for k in ('domq', 'domq_cls'):
+        if isinstance(case.get(k), dict):
+            # JSON turned the variable ids (dictionary keys) into strings
+            case[k] = {int(kk): (list(v) if isinstance(v, (list, tuple)) else v) for kk, v in case[k].items()}
     if 'explicit' in case:
         case['explicit'] = fix_case(case['explicit'])
     if case.get('foralls'):
